@@ -25,6 +25,29 @@ theorem oracle_translated_pinned : Irismod.Gen.PureOracle.translated =
      "EditFeed_feed_LatestHistory_1(msg_LatestHistory)",
      "EditFeed_cond_4(read_types_Modified_msg_Description)"] := rfl
 
+/-- every rejecting guard (an `if` ending in the return of an error, or in a panic) of the translated functions and of
+the handlers around them, as source text in source order: removing, weakening or reordering one breaks this -/
+theorem oracle_guards_pinned : Irismod.Gen.PureOracle.guards =
+    ["EditFeed: !found",
+     "EditFeed: msg.Creator != feed.Creator",
+     "EditFeed: err := k.sk.UpdateRequestContext( ctx, requestContextID, providers, msg.ResponseThreshold, msg.ServiceFeeCap, msg.Timeout, msg.RepeatedFrequency, -1, creator, ); err != nil",
+     "Keeper.CreateFeed: _, found := k.GetFeed(ctx, msg.FeedName); found",
+     "Keeper.CreateFeed: requestContextID, err := k.sk.CreateRequestContext( ctx, msg.ServiceName, providers, creator, msg.Input, msg.ServiceFeeCap, msg.Timeout, true, msg.RepeatedFrequency, -1, serviceexported.PAUSED, msg.ResponseThreshold, types.ModuleName, ); err != nil",
+     "Keeper.StartFeed: !found",
+     "Keeper.StartFeed: msg.Creator != feed.Creator",
+     "Keeper.StartFeed: !existed",
+     "Keeper.StartFeed: reqCtx.State == serviceexported.RUNNING",
+     "Keeper.StartFeed: err := k.sk.StartRequestContext(ctx, requestContextID, creator); err != nil",
+     "Keeper.PauseFeed: !found",
+     "Keeper.PauseFeed: msg.Creator != feed.Creator",
+     "Keeper.PauseFeed: !existed",
+     "Keeper.PauseFeed: reqCtx.State != serviceexported.RUNNING",
+     "Keeper.PauseFeed: err := k.sk.PauseRequestContext(ctx, requestContextID, creator); err != nil",
+     "msgServer.CreateFeed: err := m.Keeper.CreateFeed(ctx, msg); err != nil",
+     "msgServer.EditFeed: err := m.Keeper.EditFeed(ctx, msg); err != nil",
+     "msgServer.StartFeed: err := m.Keeper.StartFeed(ctx, msg); err != nil",
+     "msgServer.PauseFeed: err := m.Keeper.PauseFeed(ctx, msg); err != nil"] := rfl
+
 private theorem wrap_id' (x : Int) (h : -9223372036854775808 ≤ x ∧ x < 9223372036854775808) : I64_wrap x = x := by
   unfold I64_wrap
   have e : (x + 9223372036854775808).emod 18446744073709551616 = x + 9223372036854775808 :=
